@@ -88,6 +88,7 @@ type Rule struct {
 	Chunks        int     `json:"chunks,omitempty"`    // split: force chunk count (+1; 0 = hash)
 	EmptyPct      int     `json:"empty_pct,omitempty"` // chance that a collection-typed output (top nesting level) is empty
 	Bools         string  `json:"bools,omitempty"`     // "true" / "false": every bool output leaf of the job has this value
+	Len           int     `json:"len,omitempty"`       // force the length of every collection-typed output (top nesting level) (+1; 0 = hash)
 }
 
 type Spec struct {
@@ -122,6 +123,7 @@ type Spec struct {
 	// Set by the probe from a matching rule: value of every bool leaf.
 	ForceBool *bool `json:"-"`
 	EmptyPct  int   `json:"-"`
+	ForceLen  int   `json:"-"` // +1; 0 = not forced
 	// Side directory for files created outside the pipestance.
 	OutsideDir string `json:"outside_dir,omitempty"`
 	// Arrays produced have distinct elements by construction.
